@@ -163,8 +163,14 @@ def run(chk):
                     break
             R = W - psi @ s - b[None, :]
             for j in range(n):
-                if not np.any(s[j]) and np.linalg.norm(psi[:, j] @ R) / r > l1 * (1 + 1e-6) + 1e-12:
-                    chk.violation("impl", "multiclass-zero-row-kkt", f"sensor {j} has zero weights but violates the optimality inequality", ctx)
+                # a zero row whose optimality inequality fails by v can be improved by at least v^2 / (2 L), L = |psi_j|^2 / r (one block
+                # step from 0): only an improvement beyond the solver tolerance contradicts "minimises" (the solver stops at a tolerance,
+                # so the inequality itself holds only approximately)
+                v = np.linalg.norm(psi[:, j] @ R) / r - l1
+                Lj = float(np.sum(psi[:, j] ** 2)) / r
+                if not np.any(s[j]) and v > 0 and Lj > 0 and v * v / (2 * Lj) > gap_tol:
+                    chk.violation("impl", "multiclass-zero-row-kkt", f"sensor {j} has zero weights although activating it lowers the objective by at least "
+                                  f"{v * v / (2 * Lj):.3g} (solver tolerance {gap_tol:.3g})", ctx)
                     break
             chk.count("multiclass_objective_checked")
             # ---- dual certificate, validated inside Coq on the exact rational values (Class/DualCheck.v): the returned weights
